@@ -613,6 +613,11 @@ func (f *Frame) evalCall(e *CExpr, env *Env) *Val {
 		m, k := arg(0), arg(1)
 		mk := f.mapInfo(m.T)
 		return boolVal(And(Neq(m.X, IntLit(0)), Select(f.mapDom(mk, m.X, env.State), k.X)))
+	case "dom":
+		m := arg(0)
+		mk := f.mapInfo(m.T)
+		d := f.mapDom(mk, m.X, env.State)
+		return &Val{K: VScalar, X: Ite(Eq(m.X, IntLit(0)), ConstArray(ArrayS(mk.ksort, BoolS), False), d)}
 	case "closed":
 		c := arg(0)
 		cl := env.State.Get("closed", ArrayS(IntS, BoolS))
